@@ -35,7 +35,19 @@ type cluClient struct {
 	s              *Sched
 	inc            int
 	nodes          func() []ctypes.Node
+	// existing: what the cluster already runs when the provider starts (start-up histories); the call
+	// then takes time like every other cluster call
+	existing []ctypes.Deployment
 }
+
+// runningDeployment is a workload found in the cluster at start-up.
+type runningDeployment struct {
+	lid   mtypes.LeaseID
+	group manifest.Group
+}
+
+func (d runningDeployment) LeaseID() mtypes.LeaseID       { return d.lid }
+func (d runningDeployment) ManifestGroup() manifest.Group { return d.group }
 
 func (c *cluClient) Deploy(ctx context.Context, lid mtypes.LeaseID, g *manifest.Group) error {
 	_, err := c.s.Do(nil, c.inc, "Cluster.Deploy", "Cluster.Deploy "+mquery.LeasePath(lid), g)
@@ -48,7 +60,13 @@ func (c *cluClient) TeardownLease(ctx context.Context, lid mtypes.LeaseID) error
 }
 
 func (c *cluClient) Deployments(ctx context.Context) ([]ctypes.Deployment, error) {
-	return nil, nil
+	if c.existing == nil {
+		return nil, nil
+	}
+	if _, err := c.s.Do(nil, c.inc, "Cluster.Deployments", "Cluster.Deployments", nil); err != nil {
+		return nil, err
+	}
+	return c.existing, nil
 }
 
 func (c *cluClient) Inventory(ctx context.Context) ([]ctypes.Node, error) {
@@ -69,10 +87,21 @@ func (c *cluClient) LeaseStatus(ctx context.Context, lid mtypes.LeaseID) (*ctype
 
 type cluQuery struct {
 	client.QueryClient
+	s *Sched
+	// active: the leases the node reports as active; the node evaluates the query when it arrives, the
+	// answer is then on its way for a while (start-up histories only)
+	active []mtypes.QueryLeaseResponse
 }
 
 func (q *cluQuery) ActiveLeasesForProvider(id sdk.AccAddress) ([]mtypes.QueryLeaseResponse, error) {
-	return nil, nil
+	if q.active == nil {
+		return nil, nil
+	}
+	answer := q.active
+	if _, err := q.s.Do(nil, 1, "Query.ActiveLeases", "Query.ActiveLeases", nil); err != nil {
+		return nil, err
+	}
+	return answer, nil
 }
 
 type cluTx struct {
@@ -127,6 +156,8 @@ type mLease struct {
 	lateSent   int  // manifests announced after the lease had closed
 	deployFail bool // some deploy of this lease returned an error
 	managed    bool // the harness believes a manager exists
+	// existing: the workload was already running when the provider started
+	existing bool
 }
 
 type c14 struct {
@@ -233,8 +264,39 @@ func runC14(r *core.Run) *core.Violation {
 	cfg := cluster.NewDefaultConfig()
 	cfg.InventoryExternalPortQuantity = 100
 	cfg.BlockedHostnames = []string{blockedHost}
+	tenant := testAddr(3)
+	for i := 0; i < nLeases; i++ {
+		oid := mtypes.OrderID{Owner: tenant.String(), DSeq: uint64([]int{1, 12}[i]), GSeq: 1, OSeq: 1}
+		gs := simpleGroupSpec("web", 10, uint32(1+r.Choose(2, "lease.count")))
+		l := &mLease{id: mtypes.MakeLeaseID(mtypes.MakeBidID(oid, prov)), group: dtypes.Group{GroupID: oid.GroupID(), State: dtypes.GroupOpen, GroupSpec: gs}}
+		l.key = mquery.LeasePath(l.id)
+		if r.Bool(60, "lease.hosts") {
+			l.hosts = []string{fmt.Sprintf("app%d.example.com", i)}
+			l.swapHosts = r.Bool(40, "lease.swap-hosts")
+			l.blockedSecond = r.Bool(15, "lease.blocked-second-host")
+		}
+		x.leases = append(x.leases, l)
+	}
+	// start-up history: the provider (re)starts while the cluster already runs workloads of active leases
+	cc := &cluClient{s: x.s, inc: 1}
+	if r.Bool(25, "knob.startup-with-workloads") {
+		for _, l := range x.leases {
+			if l.blockedSecond || !r.Bool(70, "startup.existing") {
+				continue
+			}
+			l.existing, l.lastSent, l.managed = true, 1, true
+			_, g := x.manifestFor(l, 1)
+			cc.existing = append(cc.existing, runningDeployment{lid: l.id, group: *g})
+			cl.q.s = x.s
+			cl.q.active = append(cl.q.active, mtypes.QueryLeaseResponse{Lease: mtypes.Lease{LeaseID: l.id, State: mtypes.LeaseActive}})
+		}
+	}
 	var err error
-	x.svc, err = cluster.NewService(ctx, sess, x.bus, &cluClient{s: x.s, inc: 1}, cfg)
+	if cc.existing == nil {
+		x.svc, err = cluster.NewService(ctx, sess, x.bus, cc, cfg)
+	} else {
+		err = x.startup(ctx, sess, cc, cfg)
+	}
 	if err != nil {
 		panic(err)
 	}
@@ -259,24 +321,17 @@ func runC14(r *core.Run) *core.Violation {
 	x.s.Settle()
 	x.completeAll("Cluster.Inventory")
 	x.s.Settle()
-	tenant := testAddr(3)
-	for i := 0; i < nLeases; i++ {
-		oid := mtypes.OrderID{Owner: tenant.String(), DSeq: uint64([]int{1, 12}[i]), GSeq: 1, OSeq: 1}
-		gs := simpleGroupSpec("web", 10, uint32(1+r.Choose(2, "lease.count")))
-		l := &mLease{id: mtypes.MakeLeaseID(mtypes.MakeBidID(oid, prov)), group: dtypes.Group{GroupID: oid.GroupID(), State: dtypes.GroupOpen, GroupSpec: gs}}
-		l.key = mquery.LeasePath(l.id)
-		if r.Bool(60, "lease.hosts") {
-			l.hosts = []string{fmt.Sprintf("app%d.example.com", i)}
-			l.swapHosts = r.Bool(40, "lease.swap-hosts")
-			l.blockedSecond = r.Bool(15, "lease.blocked-second-host")
+	for _, l := range x.leases {
+		l.reserved = true
+		if l.existing {
+			continue // the inventory accounts for a workload found at start-up by itself
 		}
-		x.leases = append(x.leases, l)
 		// the bid engine reserved resources for the order before the lease was won
 		var rerr error
-		if !returnsPromptly(func() { _, rerr = x.svc.Reserve(oid, gs) }) || rerr != nil {
+		gs := l.group.GroupSpec
+		if !returnsPromptly(func() { _, rerr = x.svc.Reserve(l.id.OrderID(), gs) }) || rerr != nil {
 			panic(fmt.Sprintf("harness: initial reservation failed: %v", rerr))
 		}
-		l.reserved = true
 	}
 	r.Logf("knobs: leases=%d steps=%d faults=%d", nLeases, steps, x.faults)
 	for i := 0; i < steps; i++ {
@@ -295,6 +350,43 @@ func runC14(r *core.Run) *core.Violation {
 		}
 	}
 	return x.finish()
+}
+
+// startup runs cluster.NewService over workloads that are already running; the cluster and the node take
+// their time to say what is running and which leases are active.  (Events that arrive while the service
+// is still starting race with the first steps of the managers it creates, which only the goroutine-level
+// scheduler can order: those histories are part of the Layer-2 scenario, c14_l2.go.)
+func (x *c14) startup(ctx context.Context, sess session.Session, cc *cluClient, cfg cluster.Config) error {
+	r := x.r
+	var err error
+	ready := make(chan struct{})
+	go func() {
+		defer close(ready)
+		x.svc, err = cluster.NewService(ctx, sess, x.bus, cc, cfg)
+	}()
+	r.Count("probe:startup-with-workloads")
+	r.Logf("start-up: %d workloads already running", len(cc.existing))
+	for i := 0; i < 40 && !isDone(ready); i++ {
+		x.s.Settle()
+		x.s.Tick()
+		var waiting *Call
+		for _, c := range x.s.Pending() {
+			if c.Method == "Cluster.Deployments" || c.Method == "Query.ActiveLeases" {
+				waiting = c
+			}
+		}
+		if waiting == nil {
+			time.Sleep(time.Second)
+			continue
+		}
+		x.s.Complete(waiting, nil)
+		r.Logf("step %d: %s -> ok", x.s.Step, waiting.Key)
+	}
+	x.s.Settle()
+	if !isDone(ready) {
+		panic("harness: cluster.NewService did not return")
+	}
+	return err
 }
 
 func (x *c14) completeAll(method string) {
